@@ -1,6 +1,725 @@
-//! C12 — not implemented yet.
-use crate::core::Ctx;
-use serde_json::Value;
+//! C12 — JWT fang admits exactly the tokens signed with the configured key and valid now (DESIGN §5 C12).
+//!
+//! configuration = (secret, HS256/384/512, payload type `serde_json::Value` or a typed struct) in front of one
+//! route `/` (GET and POST) whose handler counts its runs and echoes the payload it finds in the request context.
+//! unit  = (configuration, pinned clock, payload); the payload is issued by the real `JWT::issue`, then the issued
+//!         token and every member of the edit families below are sent through the real read → router → send path.
+//! oracle = `refmodel::jwt::judge_authorization` (own base64url, own JSON reader with exact decimal comparison of
+//!         the time claims, own HMAC construction over `sha2`; bound to Python's hmac/hashlib by fixed vectors).
+//!
+//! What is demanded (and nothing else):
+//!   Refuse  — handler must not run and the response must carry an error status (>= 400);
+//!   Accept  — handler must run, status 200, and the echoed payload equals the signed payload (as JSON values);
+//!   Either  — the statement is silent (correctly signed token whose header is not the issued one, non-numeric
+//!             time claim, `bearer` in another case / extra blanks, payload that does not fit the typed handler):
+//!             counted as ambiguous; only "if the handler ran it saw the signed payload" is still required;
+//!   OPTIONS — only "handler did not run".
 
-pub fn run(ctx: &mut Ctx) { ctx.machinery_error("C12 engine not implemented".into()); }
-pub fn replay(ctx: &mut Ctx, _case: &Value) { ctx.machinery_error("C12 engine not implemented".into()); }
+use crate::app::{self, Outcome};
+use crate::core::{esc, guarded, panic_kind, strings_over, unesc, Ctx};
+use crate::refmodel::b64;
+use crate::refmodel::jwt::{self as rj, Alg, Expect, Json, Verdict, ALGS};
+use ohkami::__verif__::VerifRouter;
+use ohkami::fang::{Context, JWT};
+use ohkami::{Ohkami, Route};
+use serde::{Deserialize, Serialize};
+use serde_json::{json, Value};
+use std::sync::atomic::{AtomicU64, Ordering};
+
+static RUNS: AtomicU64 = AtomicU64::new(0);
+
+async fn echo_value(Context(p): Context<'_, Value>) -> String {
+    RUNS.fetch_add(1, Ordering::SeqCst);
+    format!("ran:{}", serde_json::to_string(p).unwrap_or_else(|_| "<unserializable>".into()))
+}
+
+#[derive(Serialize, Deserialize, Clone, Debug, PartialEq)]
+pub struct Claims {
+    sub: String,
+    admin: bool,
+    #[serde(default, skip_serializing_if = "Option::is_none")]
+    exp: Option<u64>,
+}
+
+async fn echo_claims(Context(p): Context<'_, Claims>) -> String {
+    RUNS.fetch_add(1, Ordering::SeqCst);
+    format!("ran:{}", serde_json::to_string(p).unwrap_or_else(|_| "<unserializable>".into()))
+}
+
+/* ------------------------------------------------------------- configurations ------------------------------ */
+
+pub fn secrets() -> Vec<String> {
+    vec!["".into(), "s".into(), "secret".into(), rj::secret_70(), rj::secret_140(), "pä".into()]
+}
+
+enum Issuer { Value(JWT<Value>), Claims(JWT<Claims>) }
+
+pub struct Cfg { secret: String, alg: Alg, typed: bool, router: VerifRouter, issuer: Issuer }
+
+fn new_jwt<P>(alg: Alg, secret: &str) -> JWT<P> {
+    match alg { Alg::HS256 => JWT::new_256(secret.to_string()), Alg::HS384 => JWT::new_384(secret.to_string()), Alg::HS512 => JWT::new_512(secret.to_string()) }
+}
+
+fn build(secret: &str, alg: Alg, typed: bool) -> Result<Cfg, String> {
+    guarded(|| {
+        if typed {
+            let jwt = new_jwt::<Claims>(alg, secret);
+            let router = VerifRouter::from(Ohkami::new((jwt.clone(), "/".GET(echo_claims).POST(echo_claims))));
+            Cfg { secret: secret.to_string(), alg, typed, router, issuer: Issuer::Claims(jwt) }
+        } else {
+            let jwt = new_jwt::<Value>(alg, secret);
+            let router = VerifRouter::from(Ohkami::new((jwt.clone(), "/".GET(echo_value).POST(echo_value))));
+            Cfg { secret: secret.to_string(), alg, typed, router, issuer: Issuer::Value(jwt) }
+        }
+    })
+}
+
+impl Cfg {
+    fn issue(&self, payload: &Value) -> Result<String, String> {
+        guarded(|| match &self.issuer {
+            Issuer::Value(j) => j.clone().issue(payload.clone()).to_string(),
+            Issuer::Claims(j) => j.clone().issue(serde_json::from_value::<Claims>(payload.clone()).expect("typed payload alphabet fits Claims")).to_string(),
+        })
+    }
+}
+
+fn claims_shape(p: &Json) -> bool {
+    let Json::Obj(m) = p else { return false };
+    if p.has_duplicate_keys() { return false }
+    let mut ok = m.iter().any(|(k, v)| k == "sub" && matches!(v, Json::Str(_))) && m.iter().any(|(k, v)| k == "admin" && matches!(v, Json::Bool(_)));
+    for (k, v) in m {
+        match k.as_str() {
+            "sub" | "admin" => {}
+            "exp" => ok &= matches!(v, Json::Num(n) if n.parse::<u64>().is_ok()),
+            _ => ok = false,
+        }
+    }
+    ok
+}
+
+/* ----------------------------------------------------------------- one case -------------------------------- */
+
+pub struct Case<'a> {
+    pub now: u64,
+    pub method: &'a str,
+    pub auth: Option<&'a str>,
+    /// an additional header (the token in the wrong place)
+    pub extra: Option<(&'a str, &'a str)>,
+    /// edit family and feature; enters the class id
+    pub label: &'a str,
+}
+
+fn expected_text(v: &Verdict, method: &str) -> String {
+    if method == "OPTIONS" { return "handler does not run (nothing else is demanded of OPTIONS)".into() }
+    match v.expect {
+        Expect::Accept => "handler runs, 200, echoes the signed payload".into(),
+        Expect::Refuse => format!("error status, handler does not run; grounds: {}", v.grounds.iter().map(|g| g.label()).collect::<Vec<_>>().join(", ")),
+        Expect::Either => format!("not decided by the statement ({})", v.ambiguity.join("; ")),
+    }
+}
+
+fn run_case(ctx: &mut Ctx, cfg: &Cfg, c: &Case) {
+    ohkami::__verif__::set_clock(Some(c.now));
+    let mut headers: Vec<(&str, &str)> = vec![("Host", "h")];
+    if let Some(a) = c.auth { headers.push(("Authorization", a)) }
+    if let Some(e) = c.extra { headers.push(e) }
+    let raw = app::request(c.method, "/", &headers, b"");
+    if raw.len() > 1000 { ctx.skip(); return }
+
+    let mut v = rj::judge_authorization(cfg.secret.as_bytes(), cfg.alg, c.now, c.auth);
+    let mut check_echo = true;
+    if cfg.typed && v.expect != Expect::Refuse && !v.payload.as_ref().is_some_and(claims_shape) {
+        v.expect = Expect::Either;
+        v.ambiguity.push("the signed payload does not have the shape of the handler's payload type".into());
+        check_echo = false;
+    }
+
+    if v.payload.as_ref().is_some_and(|p| p.has_duplicate_keys()) { check_echo = false } // which of two equal names the handler should see is not decided
+
+    let before = RUNS.load(Ordering::SeqCst);
+    let out = app::oneshot(&cfg.router, &raw);
+    let ran = RUNS.load(Ordering::SeqCst) != before;
+    ctx.distinct_key(&(&cfg.secret, cfg.alg, cfg.typed, c.now, c.method, c.auth, c.extra));
+
+    // feature of the class id: the edit label; for unedited tokens what the reference found in the claims
+    let feature = if c.label == "issued" || c.label.starts_with("crafted") {
+        let detail = match v.expect {
+            Expect::Refuse => v.grounds.iter().map(|g| g.label()).collect::<Vec<_>>().join("+"),
+            _ => if v.claims.is_empty() { "no-claims".to_string() } else { v.claims.join("+") },
+        };
+        format!("{}:{}", c.label, detail)
+    } else { c.label.to_string() };
+    let class = |symptom: &str| format!("C12/{}{}/{}/{}", cfg.alg.name(), if cfg.typed { "+typed" } else { "" }, feature, symptom);
+    let nontrivial = v.grounds.len() <= 1 && c.auth.is_some();
+    let collision = (v.expect == Expect::Refuse && v.grounds.len() == 1 && c.auth.is_some_and(|a| a.starts_with("Bearer ") && a.len() > 7)) || v.claim_at_now;
+
+    let witness = |observed: String| {
+        let w = json!({"secret": esc(cfg.secret.as_bytes()), "alg": cfg.alg.name(), "typed": cfg.typed, "now": c.now, "method": c.method,
+                       "authorization": c.auth, "extra_header": c.extra.map(|(k, v)| json!([k, v])), "label": c.label,
+                       "expected": expected_text(&v, c.method), "observed": observed});
+        move || w
+    };
+
+    match &out {
+        Outcome::Panic(stage, msg) => { ctx.violation(&class(&format!("panic@{stage}:{}", panic_kind(msg))), nontrivial, witness(out.kind())); return }
+        Outcome::Stall(stage) => { ctx.violation(&class(&format!("stall@{stage}")), nontrivial, witness(out.kind())); return }
+        Outcome::Closed => { ctx.violation(&class("closed-without-response"), nontrivial, witness(out.kind())); return }
+        Outcome::Response { parsed: Err(e), .. } => { ctx.violation(&class("malformed-response"), nontrivial, witness(format!("malformed response: {e}"))); return }
+        Outcome::Response { parsed: Ok(_), .. } => {}
+    }
+    let p = out.parsed().unwrap();
+    let body = String::from_utf8_lossy(&p.body).to_string();
+    let observed = format!("status {} ran={} body={:?}", p.status, ran, body);
+
+    if c.method == "OPTIONS" {
+        if ran { ctx.violation(&class("handler-ran-on-OPTIONS"), nontrivial, witness(observed)) }
+        else { ctx.pass(&format!("options:{}", p.status), nontrivial, false) }
+        return
+    }
+    // does the echo show exactly the signed payload?
+    let echo_matches = || -> bool {
+        let Some(text) = body.strip_prefix("ran:") else { return false };
+        match (rj::parse_json(text.as_bytes()), &v.payload) { (Ok(seen), Some(signed)) => rj::json_eq(&seen, signed), _ => false }
+    };
+    match v.expect {
+        Expect::Refuse => {
+            if ran { ctx.violation(&class("accepted-should-refuse"), nontrivial, witness(observed)) }
+            else if p.status < 400 { ctx.violation(&class(&format!("refused-without-error-status:{}", p.status)), nontrivial, witness(observed)) }
+            else { ctx.pass(&format!("refused:{}:{}", p.status, v.grounds[0].label().split(['=', '@']).next().unwrap_or("")), nontrivial, collision) }
+        }
+        Expect::Accept => {
+            if !ran { ctx.violation(&class(&format!("refused-should-accept:{}", p.status)), nontrivial, witness(observed)) }
+            else if p.status != 200 { ctx.violation(&class(&format!("handler-ran-but-status:{}", p.status)), nontrivial, witness(observed)) }
+            else if !echo_matches() { ctx.violation(&class("wrong-payload"), nontrivial, witness(observed)) }
+            else { ctx.pass(if v.claims.is_empty() { "accepted" } else { "accepted:time-claims-admit" }, nontrivial, collision) }
+        }
+        Expect::Either => {
+            if ran && check_echo && !echo_matches() { ctx.violation(&class("wrong-payload"), nontrivial, witness(observed)) }
+            else if !ran && p.status < 400 { ctx.violation(&class(&format!("refused-without-error-status:{}", p.status)), nontrivial, witness(observed)) }
+            else { ctx.ambiguous(&format!("{}:{}", c.label.split(['@', '>']).next().unwrap_or(""), if ran { "ran".to_string() } else { p.status.to_string() })) }
+        }
+    }
+}
+
+/* -------------------------------------------------------------- payload alphabet --------------------------- */
+
+/// payloads handed to the real `JWT::issue` (as `serde_json::Value`)
+fn value_payloads(now: u64, full: bool) -> Vec<(String, Value)> {
+    let mut out: Vec<(String, Value)> = vec![
+        ("empty-object".into(), json!({})),
+        ("sub".into(), json!({"sub": "u"})),
+        ("nested".into(), json!({"sub": "u", "roles": ["a", {"k": [1, 2.5, null, true, -3]}], "inner": {"exp": 1, "nbf": 99999999999u64}, "uni": "pä\n\"q\" \u{1F600}"})),
+        ("string-payload".into(), json!("just a string")),
+        ("array-payload".into(), json!(["exp", 1])),
+    ];
+    // integer claims: the full product {absent, now-1, now, now+1}^3
+    let opts: Vec<Option<u64>> = { let mut v = vec![None]; if now > 0 { v.push(Some(now - 1)) } v.push(Some(now)); v.push(Some(now + 1)); v };
+    for e in &opts { for n in &opts { for i in &opts {
+        if e.is_none() && n.is_none() && i.is_none() { continue }
+        let singles = [e, n, i].iter().filter(|x| x.is_some()).count() == 1;
+        if !full && !singles { continue }
+        let mut m = serde_json::Map::new();
+        m.insert("sub".into(), json!("u"));
+        if let Some(e) = e { m.insert("exp".into(), json!(e)); }
+        if let Some(n) = n { m.insert("nbf".into(), json!(n)); }
+        if let Some(i) = i { m.insert("iat".into(), json!(i)); }
+        out.push(("int-claims".into(), Value::Object(m)));
+    } } }
+    // claims that are numbers but not u64, and claims that are not numbers
+    let nowf = now as f64;
+    for name in ["exp", "nbf", "iat"] {
+        let mut vals: Vec<Value> = vec![json!(-1), json!(-(now as i64) - 1), json!(nowf - 0.5), json!(nowf + 0.5), json!(nowf), json!(nowf + 1.0), json!(1e30), json!(-0.0)];
+        if now > 0 { vals.push(json!(nowf - 1.0)) }
+        vals.extend([json!((now + 1000).to_string()), json!(now.saturating_sub(1000).to_string()), json!(null), json!(true), json!([now + 1000]), json!({"v": now + 1000})]);
+        for v in vals { out.push(("odd-claim".into(), json!({"sub": "u", name: v}))); }
+    }
+    out
+}
+
+/// payload *texts* that `issue` cannot produce from a `Value`; signed by the reference with the issued header
+fn crafted_payload_texts(now: u64) -> Vec<(String, Vec<u8>)> {
+    let out = crafted_payload_strings(now);
+    let mut out: Vec<(String, Vec<u8>)> = out.into_iter().map(|(l, t)| (l, t.into_bytes())).collect();
+    out.push(("crafted:not-utf8".into(), b"{\"sub\":\"\xff\"}".to_vec()));
+    out
+}
+
+fn crafted_payload_strings(now: u64) -> Vec<(String, String)> {
+    let mut out = vec![];
+    for name in ["exp", "nbf", "iat"] {
+        for (tag, num) in [
+            ("exponent-now", format!("{now}e0")), ("exponent-future", format!("{}E0", now + 1)), ("scaled-fraction-future", format!("{}5e-1", now)),
+            ("scaled-fraction-past", format!("{}5e-1", now.saturating_sub(1))), ("point-zero-now", format!("{now}.0")), ("point-zero-future", format!("{}.000", now + 1)),
+            ("u64-max", "18446744073709551615".to_string()), ("two-pow-64", "18446744073709551616".to_string()), ("minus-zero", "-0".to_string()),
+            ("zero", "0".to_string()), ("one", "1".to_string()),
+        ] {
+            out.push((format!("crafted:{tag}"), format!(r#"{{"sub":"u","{name}":{num}}}"#)));
+        }
+        out.push(("crafted:duplicate-claim".into(), format!(r#"{{"{name}":{},"{name}":{}}}"#, now.saturating_sub(1), now + 1)));
+        out.push(("crafted:duplicate-claim".into(), format!(r#"{{"{name}":{},"{name}":{}}}"#, now + 1, now.saturating_sub(1))));
+    }
+    out.push(("crafted:white-space".into(), "{ \"sub\" : \"u\" }\n".to_string()));
+    out.push(("crafted:escapes".into(), r#"{"sub":"ü\/😀"}"#.to_string()));
+    out.push(("crafted:number-payload".into(), "42".to_string()));
+    out.push(("crafted:null-payload".into(), "null".to_string()));
+    out.push(("crafted:not-json".into(), "{sub:u}".to_string()));
+    out.push(("crafted:empty-text".into(), "".to_string()));
+    out
+}
+
+fn typed_payloads(now: u64) -> Vec<(String, Value)> {
+    let mut v = vec![
+        ("typed".to_string(), json!({"sub": "u", "admin": false})),
+        ("typed".to_string(), json!({"sub": "üser \"x\"", "admin": true, "exp": now + 1})),
+        ("typed".to_string(), json!({"sub": "", "admin": true, "exp": now})),
+    ];
+    if now > 0 { v.push(("typed".to_string(), json!({"sub": "u", "admin": false, "exp": now - 1}))) }
+    v
+}
+
+/* ---------------------------------------------------------------- edit families ---------------------------- */
+
+struct Edit { label: String, method: &'static str, auth: Option<String>, extra: Option<(String, String)> }
+
+fn bearer(label: impl Into<String>, token: impl AsRef<str>) -> Edit {
+    Edit { label: label.into(), method: "GET", auth: Some(format!("Bearer {}", token.as_ref())), extra: None }
+}
+
+const MUT_ALPHABET: &[u8] = b"ABCDEFGHIJKLMNOPQRSTUVWXYZabcdefghijklmnopqrstuvwxyz0123456789-_.=+/";
+
+fn mutation_label(token: &str, pos: usize, new: u8) -> String {
+    let b = token.as_bytes();
+    let d1 = b.iter().position(|c| *c == b'.').unwrap_or(b.len());
+    let d2 = b.iter().skip(d1 + 1).position(|c| *c == b'.').map_or(b.len(), |i| i + d1 + 1);
+    let (part, start, end) = if pos < d1 { ("header", 0, d1) } else if pos == d1 { ("dot1", d1, d1 + 1) }
+        else if pos < d2 { ("payload", d1 + 1, d2) } else if pos == d2 { ("dot2", d2, d2 + 1) } else { ("signature", d2 + 1, b.len()) };
+    let at = if part.starts_with("dot") { "" } else if pos == start { ":first" } else if pos + 1 == end { ":last" } else { ":middle" };
+    let repl = match new { b'.' => "dot", b'=' => "pad", b'+' | b'/' => "std", _ => "b64" };
+    format!("mutation@{part}{at}>{repl}")
+}
+
+fn other_secret_for(secret: &str) -> String { if secret == "x-other" { "y-other".into() } else { "x-other".into() } }
+
+/// the small set of edits applied to every token the reference accepts
+fn light_edits(cfg: &Cfg, token: &str, header: &[u8], payload: &[u8]) -> Vec<Edit> {
+    let parts: Vec<&str> = token.split('.').collect();
+    let mut out = vec![
+        bearer("parts:extra-empty", format!("{token}.")),
+        bearer("parts:extra-x", format!("{token}.x")),
+        bearer("resign:other-secret", rj::craft(cfg.alg, other_secret_for(&cfg.secret).as_bytes(), header, payload)),
+    ];
+    if let Ok(sig) = b64::url_decode(parts.get(2).unwrap_or(&"").as_bytes()) {
+        out.push(bearer("sig-length:first-16-bytes", format!("{}.{}.{}", parts[0], parts[1], b64::url_encode(&sig[..sig.len().min(16)]))));
+        let mut flipped = sig.clone();
+        if let Some(l) = flipped.last_mut() { *l ^= 1 }
+        out.push(bearer("sig-bytes:last-bit-flipped", format!("{}.{}.{}", parts[0], parts[1], b64::url_encode(&flipped))));
+    }
+    for a in ALGS { if a != cfg.alg {
+        out.push(bearer(format!("resign:header-names-other-alg({})", a.name()), rj::craft(cfg.alg, cfg.secret.as_bytes(), a.issued_header().as_bytes(), payload)));
+    } }
+    out.push(Edit { label: "method:POST".into(), method: "POST", auth: Some(format!("Bearer {token}")), extra: None });
+    out
+}
+
+/// the complete edit families of DESIGN §5 C12 (except the single-character substitutions, see `mutations`)
+fn full_edits(cfg: &Cfg, token: &str, header: &[u8], payload: &[u8]) -> Vec<Edit> {
+    let parts: Vec<&str> = token.split('.').collect();
+    if parts.len() != 3 { return vec![] }
+    let (h, p, s) = (parts[0], parts[1], parts[2]);
+    let mut out = vec![];
+
+    // part counts
+    for (label, t) in [
+        ("parts:empty-token", String::new()), ("parts:dot", ".".into()), ("parts:two-dots", "..".into()), ("parts:three-dots", "...".into()),
+        ("parts:header-only", h.to_string()), ("parts:header-dot", format!("{h}.")), ("parts:no-signature-part", format!("{h}.{p}")),
+        ("parts:empty-signature", format!("{h}.{p}.")), ("parts:empty-header", format!(".{p}.{s}")), ("parts:empty-payload", format!("{h}..{s}")),
+        ("parts:payload-and-signature-only", format!("{p}.{s}")), ("parts:signature-only", s.to_string()),
+        ("parts:extra-signature", format!("{token}.{s}")), ("parts:extra-token", format!("{token}.{token}")), ("parts:extra-two", format!("{token}.x.y")),
+        ("parts:extra-empty-twice", format!("{token}..")), ("parts:leading-dot", format!(".{token}")),
+        ("parts:reversed", format!("{s}.{p}.{h}")), ("parts:payload-first", format!("{p}.{h}.{s}")),
+        ("parts:comma-separated", format!("{h},{p},{s}")), ("parts:token-twice-space", format!("{token} {token}")), ("parts:token-twice-comma", format!("{token}, Bearer {token}")),
+    ] { out.push(bearer(label, t)); }
+
+    // signature length / encoding
+    if let Ok(sig) = b64::url_decode(s.as_bytes()) {
+        for k in 1..=4usize {
+            out.push(bearer(format!("sig-length:chars-short-{k}"), format!("{h}.{p}.{}", &s[..s.len().saturating_sub(k)])));
+            out.push(bearer(format!("sig-length:chars-long-{k}(A)"), format!("{h}.{p}.{s}{}", "A".repeat(k))));
+            out.push(bearer(format!("sig-length:chars-long-{k}(last)"), format!("{h}.{p}.{s}{}", s[s.len() - 1..].repeat(k))));
+            out.push(bearer(format!("sig-length:bytes-short-{k}"), format!("{h}.{p}.{}", b64::url_encode(&sig[..sig.len() - k]))));
+            out.push(bearer(format!("sig-length:bytes-long-{k}(zero)"), format!("{h}.{p}.{}", b64::url_encode(&[&sig[..], &vec![0u8; k][..]].concat()))));
+        }
+        for n in [0usize, 1, 8, 16, 20, 31] { if n < sig.len() {
+            out.push(bearer(format!("sig-length:first-{n}-bytes"), format!("{h}.{p}.{}", b64::url_encode(&sig[..n]))));
+        } }
+        out.push(bearer("sig-length:last-16-bytes", format!("{h}.{p}.{}", b64::url_encode(&sig[sig.len() - 16..]))));
+        out.push(bearer("sig-length:twice", format!("{h}.{p}.{}", b64::url_encode(&[&sig[..], &sig[..]].concat()))));
+        out.push(bearer("sig-encoding:padded", format!("{h}.{p}.{}", b64::encode(b64::Alphabet::UrlSafe, true, &sig)) + if sig.len() % 3 == 0 { "=" } else { "" }));
+        out.push(bearer("sig-encoding:standard-alphabet", format!("{h}.{p}.{}", b64::encode(b64::Alphabet::Standard, false, &sig)) + if s.contains(['-', '_']) { "" } else { "+" }));
+        out.push(bearer("sig-encoding:hex", format!("{h}.{p}.{}", sig.iter().map(|b| format!("{b:02x}")).collect::<String>())));
+        out.push(bearer("sig-encoding:double-base64", format!("{h}.{p}.{}", b64::url_encode(s.as_bytes()))));
+        for i in [0, sig.len() / 2, sig.len() - 1] {
+            let mut f = sig.clone(); f[i] ^= 0x80;
+            out.push(bearer(format!("sig-bytes:bit-flipped@{}", if i == 0 { "first" } else if i + 1 == sig.len() { "last" } else { "middle" }), format!("{h}.{p}.{}", b64::url_encode(&f))));
+        }
+        out.push(bearer("sig-bytes:all-zero", format!("{h}.{p}.{}", b64::url_encode(&vec![0u8; sig.len()]))));
+        // non-canonical last symbol: every symbol that decodes to the same bytes but has unused bits set
+        for alt in b"ABCDEFGHIJKLMNOPQRSTUVWXYZabcdefghijklmnopqrstuvwxyz0123456789-_" {
+            let mut t = s.as_bytes().to_vec();
+            if *t.last().unwrap() == *alt { continue }
+            *t.last_mut().unwrap() = *alt;
+            if b64::decode_lenient_bits(b64::Alphabet::UrlSafe, b64::Padding::Forbidden, &t).ok().as_deref() == Some(&sig[..]) {
+                out.push(bearer("sig-encoding:noncanonical-last-symbol", format!("{h}.{p}.{}", String::from_utf8(t).unwrap())));
+            }
+        }
+    }
+
+    // re-signing with other keys and algorithms
+    let all_secrets = { let mut v = secrets(); v.push("x-other".into()); v.push(format!("{}\u{0}", cfg.secret)); v.push(format!("{} ", cfg.secret)); v.push(cfg.secret.to_uppercase()); v };
+    for other in &all_secrets {
+        if *other == cfg.secret { continue }
+        // (`secret` + NUL is the *same* HMAC key when it fits the block; the reference computes the verdict from the token, so that token is simply expected to be accepted)
+        let rel = if cfg.secret.starts_with(other.as_str()) { "prefix-of-configured" } else if other.starts_with(cfg.secret.as_str()) { "extends-configured" } else { "unrelated" };
+        out.push(bearer(format!("resign:other-secret({rel})"), rj::craft(cfg.alg, other.as_bytes(), header, payload)));
+        for a in ALGS { if a != cfg.alg {
+            out.push(bearer("resign:other-configuration", rj::craft(a, other.as_bytes(), a.issued_header().as_bytes(), payload)));
+        } }
+    }
+    for a in ALGS { if a != cfg.alg {
+        out.push(bearer(format!("resign:signature-by-other-alg({})", a.name()), rj::craft(a, cfg.secret.as_bytes(), header, payload)));
+        out.push(bearer(format!("resign:header-names-other-alg({})", a.name()), rj::craft(cfg.alg, cfg.secret.as_bytes(), a.issued_header().as_bytes(), payload)));
+        out.push(bearer(format!("resign:other-alg-same-secret({})", a.name()), rj::craft(a, cfg.secret.as_bytes(), a.issued_header().as_bytes(), payload)));
+    } }
+    // the secret used as a *public* text: signature = base64url(secret), signature = HMAC with the header as key
+    out.push(bearer("resign:signature-is-secret-text", format!("{h}.{p}.{}", b64::url_encode(cfg.secret.as_bytes()))));
+    out.push(bearer("resign:keyed-by-header", rj::craft(cfg.alg, header, header, payload)));
+
+    // header variations, each correctly signed (configured secret + algorithm over the new first part), with a
+    // wrong signature, and — for the alg:none family — with empty / missing signature
+    let a = cfg.alg.name();
+    let other_alg = ALGS.into_iter().find(|x| *x != cfg.alg).unwrap().name();
+    let headers: Vec<(&str, String)> = vec![
+        ("alg:none", r#"{"typ":"JWT","alg":"none"}"#.into()), ("alg:None", r#"{"typ":"JWT","alg":"None"}"#.into()), ("alg:NONE", r#"{"alg":"NONE"}"#.into()),
+        ("alg:absent", r#"{"typ":"JWT"}"#.into()), ("alg:absent-empty-header", "{}".into()),
+        ("alg:lowercase", format!(r#"{{"typ":"JWT","alg":"{}"}}"#, a.to_lowercase())), ("alg:trailing-space", format!(r#"{{"typ":"JWT","alg":"{a} "}}"#)),
+        ("alg:prefix", format!(r#"{{"typ":"JWT","alg":"{}"}}"#, &a[..4])), ("alg:extended", format!(r#"{{"typ":"JWT","alg":"{a}6"}}"#)),
+        ("alg:empty-string", r#"{"typ":"JWT","alg":""}"#.into()), ("alg:null", r#"{"typ":"JWT","alg":null}"#.into()),
+        ("alg:number", format!(r#"{{"typ":"JWT","alg":{}}}"#, &a[2..])), ("alg:array", format!(r#"{{"typ":"JWT","alg":["{a}"]}}"#)), ("alg:object", format!(r#"{{"typ":"JWT","alg":{{"alg":"{a}"}}}}"#)),
+        ("alg:other-hs", format!(r#"{{"typ":"JWT","alg":"{other_alg}"}}"#)), ("alg:RS256", r#"{"typ":"JWT","alg":"RS256"}"#.into()),
+        ("alg:member-name-case", format!(r#"{{"typ":"JWT","ALG":"{a}"}}"#)), ("alg:nested-only", format!(r#"{{"typ":"JWT","x":{{"alg":"{a}"}}}}"#)),
+        ("alg:duplicate-none-first", format!(r#"{{"alg":"none","alg":"{a}"}}"#)), ("alg:duplicate-none-last", format!(r#"{{"alg":"{a}","alg":"none"}}"#)),
+        ("header:alg-only", format!(r#"{{"alg":"{a}"}}"#)), ("header:reordered", format!(r#"{{"alg":"{a}","typ":"JWT"}}"#)), ("header:white-space", format!(r#"{{ "typ" : "JWT", "alg" : "{a}" }}"#)),
+        ("header:typ-lowercase", format!(r#"{{"typ":"jwt","alg":"{a}"}}"#)), ("header:typ-other", format!(r#"{{"typ":"JOSE","alg":"{a}"}}"#)), ("header:typ-number", format!(r#"{{"typ":1,"alg":"{a}"}}"#)),
+        ("header:cty-JWT", format!(r#"{{"typ":"JWT","cty":"JWT","alg":"{a}"}}"#)), ("header:cty-other", format!(r#"{{"typ":"JWT","cty":"x","alg":"{a}"}}"#)),
+        ("header:extra-member", format!(r#"{{"typ":"JWT","alg":"{a}","kid":"1"}}"#)), ("header:crit", format!(r#"{{"typ":"JWT","alg":"{a}","crit":["exp"]}}"#)),
+        ("header:escaped-alg-name", format!(r#"{{"typ":"JWT","\u0061lg":"{a}"}}"#)), ("header:escaped-alg-value", format!(r#"{{"typ":"JWT","alg":"\u0048{}"}}"#, &a[1..])),
+        ("header:not-object-string", format!(r#""{a}""#)), ("header:not-object-array", format!(r#"["alg","{a}"]"#)), ("header:not-object-null", "null".into()),
+        ("header:not-json", format!("typ=JWT&alg={a}")), ("header:truncated-json", format!(r#"{{"typ":"JWT","alg":"{a}""#)), ("header:trailing-garbage", format!(r#"{{"typ":"JWT","alg":"{a}"}}x"#)),
+        ("header:is-payload", String::from_utf8_lossy(payload).to_string()),
+    ];
+    for (label, text) in &headers {
+        out.push(bearer(format!("{label}/signed"), rj::craft(cfg.alg, cfg.secret.as_bytes(), text.as_bytes(), payload)));
+        out.push(bearer(format!("{label}/wrong-signature"), rj::craft(cfg.alg, other_secret_for(&cfg.secret).as_bytes(), text.as_bytes(), payload)));
+        out.push(bearer(format!("{label}/original-signature"), format!("{}.{p}.{s}", b64::url_encode(text.as_bytes()))));
+        if label.starts_with("alg:") {
+            out.push(bearer(format!("{label}/empty-signature"), format!("{}.{p}.", b64::url_encode(text.as_bytes()))));
+            out.push(bearer(format!("{label}/no-signature-part"), format!("{}.{p}", b64::url_encode(text.as_bytes()))));
+        }
+    }
+    // header / payload in other encodings of the same bytes
+    out.push(bearer("encoding:header-padded", format!("{}.{p}.{s}", b64::encode(b64::Alphabet::UrlSafe, true, header)) .replacen('.', if header.len() % 3 == 0 { "=." } else { "." }, 1)));
+    out.push(bearer("encoding:payload-padded", format!("{h}.{}=.{s}", p)));
+    out.push(bearer("encoding:header-raw-json", format!("{}.{p}.{s}", String::from_utf8_lossy(header))));
+
+    // where and how the token is carried
+    let t = token;
+    for (label, auth, extra) in [
+        ("auth:absent", None, None),
+        ("auth:no-scheme", Some(t.to_string()), None), ("auth:scheme-Basic", Some(format!("Basic {t}")), None), ("auth:scheme-Token", Some(format!("Token {t}")), None),
+        ("auth:scheme-JWT", Some(format!("JWT {t}")), None), ("auth:scheme-Bearer-glued", Some(format!("Bearer{t}")), None), ("auth:scheme-Bearer-colon", Some(format!("Bearer: {t}")), None),
+        ("auth:scheme-Bearer=", Some(format!("Bearer={t}")), None), ("auth:scheme-prefix", Some(format!("Bear {t}")), None), ("auth:scheme-extended", Some(format!("Bearers {t}")), None),
+        ("auth:scheme-lowercase", Some(format!("bearer {t}")), None), ("auth:scheme-uppercase", Some(format!("BEARER {t}")), None), ("auth:scheme-mixed-case", Some(format!("bEARER {t}")), None),
+        ("auth:two-spaces", Some(format!("Bearer  {t}")), None), ("auth:tab", Some(format!("Bearer\t{t}")), None), ("auth:trailing-space", Some(format!("Bearer {t} ")), None),
+        ("auth:leading-space", Some(format!(" Bearer {t}")), None), ("auth:quoted", Some(format!("Bearer \"{t}\"")), None), ("auth:scheme-only", Some("Bearer".to_string()), None),
+        ("auth:scheme-and-space-only", Some("Bearer ".to_string()), None), ("auth:empty-value", Some(String::new()), None),
+        ("auth:other-header-only(X-Authorization)", None, Some(("X-Authorization", format!("Bearer {t}")))), ("auth:other-header-only(Proxy-Authorization)", None, Some(("Proxy-Authorization", format!("Bearer {t}")))),
+        ("auth:other-header-only(Cookie)", None, Some(("Cookie", format!("token={t}")))),
+        ("auth:garbage+token-elsewhere", Some("Bearer x.y.z".to_string()), Some(("X-Authorization", format!("Bearer {t}")))),
+    ] {
+        out.push(Edit { label: label.into(), method: "GET", auth, extra: extra.map(|(k, v)| (k.to_string(), v)) });
+    }
+
+    // methods
+    out.push(Edit { label: "method:POST".into(), method: "POST", auth: Some(format!("Bearer {t}")), extra: None });
+    out.push(Edit { label: "method:POST+parts:extra-empty".into(), method: "POST", auth: Some(format!("Bearer {t}.")), extra: None });
+    out.push(Edit { label: "method:POST+resign:other-secret".into(), method: "POST", auth: Some(format!("Bearer {}", rj::craft(cfg.alg, other_secret_for(&cfg.secret).as_bytes(), header, payload))), extra: None });
+    out.push(Edit { label: "method:POST+auth:absent".into(), method: "POST", auth: None, extra: None });
+    for (label, auth) in [("method:OPTIONS+valid-token", Some(format!("Bearer {t}"))), ("method:OPTIONS+auth:absent", None), ("method:OPTIONS+garbage", Some("Bearer x".to_string())),
+                          ("method:OPTIONS+parts:extra-empty", Some(format!("Bearer {t}.")))] {
+        out.push(Edit { label: label.into(), method: "OPTIONS", auth, extra: None });
+    }
+    out
+}
+
+fn run_edit(ctx: &mut Ctx, cfg: &Cfg, now: u64, e: &Edit) {
+    run_case(ctx, cfg, &Case { now, method: e.method, auth: e.auth.as_deref(), extra: e.extra.as_ref().map(|(k, v)| (k.as_str(), v.as_str())), label: &e.label });
+}
+
+/// every single-character substitution at every position over base64url + `. = + /`
+fn mutations(ctx: &mut Ctx, cfg: &Cfg, now: u64, token: &str) {
+    let b = token.as_bytes();
+    for pos in 0..b.len() {
+        if ctx.out_of_time() { return }
+        for c in MUT_ALPHABET {
+            if b[pos] == *c { continue }
+            let mut m = b.to_vec();
+            m[pos] = *c;
+            let auth = format!("Bearer {}", std::str::from_utf8(&m).unwrap());
+            run_case(ctx, cfg, &Case { now, method: "GET", auth: Some(&auth), extra: None, label: &mutation_label(token, pos, *c) });
+        }
+    }
+    // one character removed / one inserted, at every position
+    for pos in 0..b.len() {
+        let mut m = b.to_vec(); m.remove(pos);
+        let auth = format!("Bearer {}", std::str::from_utf8(&m).unwrap());
+        run_case(ctx, cfg, &Case { now, method: "GET", auth: Some(&auth), extra: None, label: &mutation_label(token, pos, b'A').replace("mutation@", "deletion@").replace(">b64", "") });
+    }
+    for pos in 0..=b.len() {
+        for c in [b'A', b'.'] {
+            let mut m = b.to_vec(); m.insert(pos, c);
+            let auth = format!("Bearer {}", std::str::from_utf8(&m).unwrap());
+            // a dot appended to the whole token is the `parts:extra-empty` shape, not a new one
+            let l = if pos == b.len() && c == b'.' { "parts:extra-empty".to_string() } else { mutation_label(token, pos.min(b.len() - 1), c).replace("mutation@", "insertion@") };
+            run_case(ctx, cfg, &Case { now, method: "GET", auth: Some(&auth), extra: None, label: &l });
+        }
+    }
+}
+
+/// deviation bound 2 (thorough only): every pair of positions x every pair of replacement characters of one
+/// minimal token; one sharding unit per first position
+fn double_mutations(ctx: &mut Ctx, cfg: &Cfg, now: u64, token: &str) {
+    let b = token.as_bytes();
+    let part = |pos: usize| { let l = mutation_label(token, pos, b'A'); l["mutation@".len()..].split([':', '>']).next().unwrap_or("").to_string() };
+    for i in 0..b.len() {
+        if !ctx.mine() { continue }
+        for j in i + 1..b.len() {
+            if ctx.out_of_time() { return }
+            let label = format!("mutation2@{}+{}", part(i), part(j));
+            for c1 in MUT_ALPHABET { if *c1 == b[i] { continue }
+                for c2 in MUT_ALPHABET { if *c2 == b[j] { continue }
+                    let mut m = b.to_vec();
+                    m[i] = *c1; m[j] = *c2;
+                    let auth = format!("Bearer {}", std::str::from_utf8(&m).unwrap());
+                    run_case(ctx, cfg, &Case { now, method: "GET", auth: Some(&auth), extra: None, label: &label });
+                }
+            }
+        }
+    }
+}
+
+/* ------------------------------------------------------------------- the run ------------------------------- */
+
+struct Routers { cache: Vec<Option<Cfg>>, secrets: Vec<String> }
+
+impl Routers {
+    fn index(&self, si: usize, ai: usize, typed: bool) -> usize { (si * 3 + ai) * 2 + typed as usize }
+    fn get(&mut self, ctx: &mut Ctx, si: usize, ai: usize, typed: bool) -> Option<&Cfg> {
+        let i = self.index(si, ai, typed);
+        if self.cache[i].is_none() {
+            match build(&self.secrets[si], ALGS[ai], typed) {
+                Ok(c) => self.cache[i] = Some(c),
+                Err(p) => {
+                    let (s, a) = (self.secrets[si].clone(), ALGS[ai]);
+                    ctx.violation(&format!("C12/{}/build/panic:{}", a.name(), panic_kind(&p)), true, || json!({"secret": esc(s.as_bytes()), "alg": a.name(), "typed": typed, "build_only": true, "observed": p}));
+                    return None
+                }
+            }
+        }
+        self.cache[i].as_ref()
+    }
+}
+
+/// The issued token must itself be what the statement calls a token of this configuration: three base64url
+/// parts, header naming the algorithm, payload equal to what was handed in, signature = HMAC of the two parts.
+fn check_issue(ctx: &mut Ctx, cfg: &Cfg, now: u64, payload: &Value, issued: &Result<String, String>) -> Option<(String, Vec<u8>, Vec<u8>)> {
+    let class = |s: &str| format!("C12/{}{}/issue/{}", cfg.alg.name(), if cfg.typed { "+typed" } else { "" }, s);
+    let witness = |obs: String| { let w = json!({"secret": esc(cfg.secret.as_bytes()), "alg": cfg.alg.name(), "typed": cfg.typed, "now": now, "issue_payload": payload, "observed": obs}); move || w };
+    let token = match issued {
+        Err(p) => { ctx.violation(&class(&format!("panic:{}", panic_kind(p))), true, witness(p.clone())); return None }
+        Ok(t) => t,
+    };
+    let parts: Vec<&str> = token.split('.').collect();
+    let decoded: Vec<Option<Vec<u8>>> = parts.iter().map(|p| b64::url_decode(p.as_bytes()).ok()).collect();
+    if parts.len() != 3 || decoded.iter().any(|d| d.is_none()) {
+        ctx.violation(&class("not-three-base64url-parts"), true, witness(token.clone())); return None
+    }
+    let (header, body, sig) = (decoded[0].clone().unwrap(), decoded[1].clone().unwrap(), decoded[2].clone().unwrap());
+    let expected_payload = rj::parse_json(serde_json::to_string(payload).unwrap().as_bytes()).expect("harness payloads are JSON");
+    let header_ok = rj::parse_json(&header).ok().is_some_and(|h| h.get_all("alg").len() == 1 && h.get_all("alg")[0].as_str() == Some(cfg.alg.name()));
+    let payload_ok = rj::parse_json(&body).ok().is_some_and(|p| rj::json_eq(&p, &expected_payload));
+    let sig_ok = sig == rj::hmac(cfg.alg, cfg.secret.as_bytes(), format!("{}.{}", parts[0], parts[1]).as_bytes());
+    if !header_ok { ctx.violation(&class("header-does-not-name-algorithm"), true, witness(token.clone())); return None }
+    if !payload_ok { ctx.violation(&class("payload-differs-from-input"), true, witness(token.clone())); return None }
+    if !sig_ok { ctx.violation(&class("signature-is-not-the-hmac"), true, witness(token.clone())); return None }
+    ctx.pass("issue-ok", true, false);
+    Some((token.clone(), header, body))
+}
+
+fn clocks(quick: bool) -> Vec<u64> { if quick { vec![app::CLOCK, 0] } else { vec![app::CLOCK, 0, 1 << 32] } }
+
+pub fn run(ctx: &mut Ctx) {
+    let quick = ctx.quick();
+    // the reference must reproduce the Python-derived tokens, or nothing below means anything
+    for (secret, alg, token) in rj::py_vectors() {
+        if rj::craft(alg, secret.as_bytes(), alg.issued_header().as_bytes(), br#"{"sub":"u"}"#) != token {
+            ctx.machinery_error(format!("reference HMAC/base64url disagrees with the Python-derived vector for {} / {:?}", alg.name(), secret));
+            return
+        }
+    }
+    let secrets = secrets();
+    let mut routers = Routers { cache: (0..secrets.len() * 3 * 2).map(|_| None).collect(), secrets: secrets.clone() };
+    let (mut n_units, mut n_tokens_mutated, mut n_issued) = (0u64, 0u64, 0u64);
+
+    for (ci, &now) in clocks(quick).iter().enumerate() {
+        let main_clock = ci == 0;
+        for si in 0..secrets.len() { for ai in 0..3 {
+            /* --- untyped payloads through the real issue() --- */
+            for (pi, (pname, payload)) in value_payloads(now, main_clock || !quick).into_iter().enumerate() {
+                if !ctx.mine() { continue }
+                if ctx.out_of_time() { return finish(ctx, quick, n_units, n_tokens_mutated, n_issued) }
+                let Some(cfg) = routers.get(ctx, si, ai, false) else { continue };
+                n_units += 1;
+                ohkami::__verif__::set_clock(Some(now));
+                let issued = cfg.issue(&payload);
+                let Some((token, header, body)) = check_issue(ctx, cfg, now, &payload, &issued) else { continue };
+                n_issued += 1;
+                let auth = format!("Bearer {token}");
+                run_case(ctx, cfg, &Case { now, method: "GET", auth: Some(&auth), extra: None, label: "issued" });
+                if n_issued <= 2 {
+                    ctx.sample(|| json!({"secret": esc(cfg.secret.as_bytes()), "alg": cfg.alg.name(), "now": now, "payload": payload, "issued_token": token, "expected": "handler runs and echoes the payload"}));
+                    ctx.sample(|| { let mut m = token.clone().into_bytes(); let l = m.len(); m[l - 1] = if m[l - 1] == b'A' { b'B' } else { b'A' };
+                        json!({"secret": esc(cfg.secret.as_bytes()), "alg": cfg.alg.name(), "now": now, "authorization": format!("Bearer {}", String::from_utf8_lossy(&m)), "label": "mutation@signature:last>b64", "expected": "error status, handler does not run"}) });
+                }
+                let v = rj::judge_token(cfg.secret.as_bytes(), cfg.alg, now, &token);
+                if v.expect == Expect::Refuse {
+                    // a token the claims refuse stays refused under POST; the other edits would be trivial (two grounds)
+                    run_case(ctx, cfg, &Case { now, method: "POST", auth: Some(&auth), extra: None, label: "issued" });
+                    continue
+                }
+                for e in light_edits(cfg, &token, &header, &body) { run_edit(ctx, cfg, now, &e) }
+                // full edit families: every token the reference does not refuse, at the main clock
+                if main_clock { for e in full_edits(cfg, &token, &header, &body) { run_edit(ctx, cfg, now, &e) } }
+                // every single-character mutation: quick = accepted tokens of the plain payloads and of the integer-claim
+                // product at the main clock; thorough = every token the reference does not refuse, at every clock
+                let mutate = if quick { main_clock && v.expect == Expect::Accept && (pi < 5 || pname == "int-claims") } else { true };
+                if mutate { n_tokens_mutated += 1; mutations(ctx, cfg, now, &token) }
+            }
+            /* --- payload texts only the reference can sign --- */
+            if main_clock || !quick {
+                for (label, text) in crafted_payload_texts(now) {
+                    if !ctx.mine() { continue }
+                    if ctx.out_of_time() { return finish(ctx, quick, n_units, n_tokens_mutated, n_issued) }
+                    let Some(cfg) = routers.get(ctx, si, ai, false) else { continue };
+                    n_units += 1;
+                    let bytes: Vec<u8> = text;
+                    let token = rj::craft(cfg.alg, cfg.secret.as_bytes(), cfg.alg.issued_header().as_bytes(), &bytes);
+                    let auth = format!("Bearer {token}");
+                    run_case(ctx, cfg, &Case { now, method: "GET", auth: Some(&auth), extra: None, label: &label });
+                    if rj::judge_token(cfg.secret.as_bytes(), cfg.alg, now, &token).expect != Expect::Refuse {
+                        for e in light_edits(cfg, &token, cfg.alg.issued_header().as_bytes(), &bytes) { run_edit(ctx, cfg, now, &e) }
+                    }
+                }
+            }
+            /* --- typed payload --- */
+            if main_clock && (!quick || si % 2 == 0) {
+                for (pi, (_, payload)) in typed_payloads(now).into_iter().enumerate() {
+                    if !ctx.mine() { continue }
+                    if ctx.out_of_time() { return finish(ctx, quick, n_units, n_tokens_mutated, n_issued) }
+                    let Some(cfg) = routers.get(ctx, si, ai, true) else { continue };
+                    n_units += 1;
+                    ohkami::__verif__::set_clock(Some(now));
+                    let issued = cfg.issue(&payload);
+                    let Some((token, header, body)) = check_issue(ctx, cfg, now, &payload, &issued) else { continue };
+                    let auth = format!("Bearer {token}");
+                    run_case(ctx, cfg, &Case { now, method: "GET", auth: Some(&auth), extra: None, label: "issued" });
+                    if rj::judge_token(cfg.secret.as_bytes(), cfg.alg, now, &token).expect == Expect::Refuse { continue }
+                    for e in light_edits(cfg, &token, &header, &body) { run_edit(ctx, cfg, now, &e) }
+                    if pi == 1 { for e in full_edits(cfg, &token, &header, &body) { run_edit(ctx, cfg, now, &e) } }
+                    if pi == 0 { n_tokens_mutated += 1; mutations(ctx, cfg, now, &token) }
+                    // correctly signed payloads that do not fit the handler's type (not decided by the statement)
+                    if pi == 0 {
+                        for text in [r#"{}"#, r#"{"sub":5,"admin":false}"#, r#"{"sub":"u","admin":false,"x":1}"#, r#"{"sub":"u","admin":false,"exp":"soon"}"#, r#""u""#] {
+                            let t = rj::craft(cfg.alg, cfg.secret.as_bytes(), cfg.alg.issued_header().as_bytes(), text.as_bytes());
+                            run_case(ctx, cfg, &Case { now, method: "GET", auth: Some(&format!("Bearer {t}")), extra: None, label: "crafted:typed-shape-mismatch" });
+                        }
+                    }
+                }
+            }
+            /* --- arbitrary short Authorization values --- */
+            if main_clock {
+                if !ctx.mine() { continue }
+                let Some(cfg) = routers.get(ctx, si, ai, false) else { continue };
+                n_units += 1;
+                let h_ok = b64::url_encode(cfg.alg.issued_header().as_bytes());
+                let alphabet: [&[u8]; 7] = [b"Bearer ", b".", b"e30" /* {} */, h_ok.as_bytes(), b"A", b" ", b"bearer"];
+                for s in strings_over(&alphabet, if quick { 4 } else { 5 }) {
+                    if ctx.out_of_time() { return finish(ctx, quick, n_units, n_tokens_mutated, n_issued) }
+                    let text = String::from_utf8(s).unwrap();
+                    if text.ends_with(' ') && !text.ends_with("Bearer ") || text.starts_with(' ') { continue } // blanks around the field value: C02's business
+                    let dots = text.matches('.').count();
+                    run_case(ctx, cfg, &Case { now, method: "GET", auth: Some(&text), extra: None, label: &format!("arbitrary:{}-dots", dots) });
+                }
+            }
+        } }
+    }
+    if !quick {
+        // two-character substitutions of the minimal token (`{}` payload, secret `s`, HS256) at the main clock
+        let now = app::CLOCK;
+        if let Some(cfg) = routers.get(ctx, 1, 0, false) {
+            ohkami::__verif__::set_clock(Some(now));
+            if let Ok(token) = cfg.issue(&json!({})) {
+                if rj::judge_token(cfg.secret.as_bytes(), cfg.alg, now, &token).expect == Expect::Accept { double_mutations(ctx, cfg, now, &token) }
+            }
+        }
+    }
+    finish(ctx, quick, n_units, n_tokens_mutated, n_issued)
+}
+
+fn finish(ctx: &mut Ctx, quick: bool, n_units: u64, n_mut: u64, n_issued: u64) {
+    ctx.extra.insert("rule".into(), json!("case = (secret, algorithm, payload type, pinned clock, method, Authorization value [+ one other header]); non-trivial = an Authorization header for which the reference finds at most one ground of refusal (a valid token, or a token exactly one defect away from valid); collision = refused on exactly one ground (the single shortcut the edit family targets: prefix compare, skipped alg test, ignored claim, unchecked part count, lenient base64) or a time claim exactly equal to the clock"));
+    ctx.extra.insert("bounds".into(), json!({
+        "secrets": ["", "s", "secret", "70 bytes", "140 bytes", "pä"], "algorithms": ["HS256", "HS384", "HS512"], "payload_types": ["serde_json::Value", "struct Claims{sub,admin,exp?}"],
+        "clocks": clocks(quick), "payloads_per_configuration_main_clock": value_payloads(app::CLOCK, true).len(), "crafted_payload_texts": crafted_payload_texts(app::CLOCK).len(),
+        "single_character_alphabet": String::from_utf8_lossy(MUT_ALPHABET), "mutations": "every substitution at every position + every deletion + insertion of `A` / `.` at every position",
+        "mutated_tokens": if quick { "per (secret, alg), main clock: the five plain payloads and every accepted member of the integer-claim product (17); one typed token" } else { "per (secret, alg), every clock: every issued token the reference does not refuse; one typed token per configuration; all two-character substitutions of the minimal HS256 token" },
+        "arbitrary_authorization_values": format!("all strings of <= {} symbols over [`Bearer `, `.`, `e30`, b64(issued header), `A`, ` `, `bearer`]", if quick { 4 } else { 5 }),
+        "methods": ["GET", "POST", "OPTIONS"],
+    }));
+    ctx.extra.insert("sum_units".into(), json!(n_units));
+    ctx.extra.insert("sum_tokens_fully_mutated".into(), json!(n_mut));
+    ctx.extra.insert("sum_tokens_issued_by_subject".into(), json!(n_issued));
+    ctx.extra.insert("python_cross_check".into(), json!("18 (secret, alg) tokens computed with Python hmac+hashlib+base64 are compiled into refmodel/jwt.rs and re-derived by the reference at the start of every worker; the driver-side re-check of every issued token is not implemented (no post-step in the driver)"));
+}
+
+pub fn replay(ctx: &mut Ctx, case: &Value) {
+    let secret = String::from_utf8(unesc(case["secret"].as_str().expect("secret"))).expect("secret is UTF-8");
+    let alg = Alg::from_name(case["alg"].as_str().expect("alg")).expect("known alg");
+    let typed = case["typed"].as_bool().unwrap_or(false);
+    let now = case["now"].as_u64().unwrap_or(app::CLOCK);
+    let cfg = match build(&secret, alg, typed) {
+        Ok(c) => c,
+        Err(p) => { ctx.violation(&format!("C12/{}/build/panic:{}", alg.name(), panic_kind(&p)), true, || json!({"secret": esc(secret.as_bytes()), "alg": alg.name(), "typed": typed, "build_only": true, "observed": p})); return }
+    };
+    if case["build_only"] == true { ctx.pass("build-ok", true, true); return }
+    if let Some(payload) = case.get("issue_payload") {
+        ohkami::__verif__::set_clock(Some(now));
+        let issued = cfg.issue(payload);
+        check_issue(ctx, &cfg, now, payload, &issued);
+        return
+    }
+    let extra: Option<(String, String)> = case["extra_header"].as_array().map(|a| (a[0].as_str().unwrap_or("").to_string(), a[1].as_str().unwrap_or("").to_string()));
+    run_case(ctx, &cfg, &Case {
+        now, method: case["method"].as_str().unwrap_or("GET"), auth: case["authorization"].as_str(),
+        extra: extra.as_ref().map(|(k, v)| (k.as_str(), v.as_str())), label: case["label"].as_str().unwrap_or("replay"),
+    });
+}
